@@ -356,20 +356,24 @@ class RTFDocument(BaseModel):
                     self.rtf_column_header[0], list
                 ):
                     # Nested list format: [[header1], [header2], [None]]
-                    for section_headers, section_body in zip(
-                        self.rtf_column_header, self.rtf_body, strict=True
+                    for section_headers, section_df, section_body in zip(
+                        self.rtf_column_header, self.df, self.rtf_body, strict=True
                     ):
                         if section_headers:  # Skip if [None]
                             for header in section_headers:
                                 if header and header.col_rel_width is None:
                                     header.col_rel_width = (
-                                        section_body.col_rel_width.copy()
+                                        self._displayed_col_rel_width(
+                                            section_df, section_body
+                                        )
                                     )
                 elif self.rtf_column_header:
                     # Flat list format - apply to first section only
                     for header in self.rtf_column_header:
                         if header.col_rel_width is None:
-                            header.col_rel_width = self.rtf_body[0].col_rel_width.copy()
+                            header.col_rel_width = self._displayed_col_rel_width(
+                                self.df[0], self.rtf_body[0]
+                            )
             else:
                 # Handle single section documents (existing logic)
                 dim = self.df.shape
@@ -383,7 +387,9 @@ class RTFDocument(BaseModel):
                 if self.rtf_column_header:
                     for header in self.rtf_column_header:
                         if header.col_rel_width is None:
-                            header.col_rel_width = self.rtf_body.col_rel_width.copy()
+                            header.col_rel_width = self._displayed_col_rel_width(
+                                self.df, self.rtf_body
+                            )
 
         # Calculate table spacing for text components
         self._table_space = int(
@@ -392,6 +398,24 @@ class RTFDocument(BaseModel):
 
         # Apply table spacing to text components if needed
         self._apply_table_spacing()
+
+    @staticmethod
+    def _displayed_col_rel_width(df, body):
+        """Body widths of the columns that are rendered as table cells.
+
+        subline_by columns, and page_by columns shown as spanning rows, are
+        removed from the table at encoding time; a header that inherits its
+        widths must inherit those of the remaining columns only.
+        """
+        widths = list(body.col_rel_width)
+        removed = set(body.subline_by or [])
+        if body.page_by and (not body.new_page or body.pageby_row != "column"):
+            removed.update(body.page_by)
+        if not removed or len(widths) != df.shape[1]:
+            return widths
+        return [
+            w for col, w in zip(df.columns, widths, strict=True) if col not in removed
+        ]
 
     def _apply_table_spacing(self):
         """Apply table-based spacing to text components that reference the table."""
